@@ -207,7 +207,8 @@ def run(ctx):
     # a repetition kept attached under a reference is mapped by the placement's linear part: exact identities (C11's obligation, shared)
     from . import C11, C10
     C11.check_transform_algebra(ctx, db)
-    C10.check_signs(ctx, db)   # the element transforms the collectors apply: width/offset sign and scale policy of the two path kinds
+    C10.check_signs(ctx, db)
+    C10.check_affine_algebra(ctx, db)   # the point maps the collectors apply are exactly the documented affine maps   # the element transforms the collectors apply: width/offset sign and scale policy of the two path kinds
 
 
 MANIFEST = dict(
